@@ -243,6 +243,49 @@ def sc_transfer(cfg):
     return scenario
 
 
+def sc_ckm_weights(cfg):
+    """a ConstraintKMeans holding learned cluster weights (strategy='weights'): transform / score of its
+    clone_with_fitted_parameters copy and of its pickle copy use the same weights (symbolic), row by row"""
+    kc = loader.load("mlmodel.kmeans_constraint")
+    sk = loader.load("mlmodel.sklearn_testing")
+
+    def scenario(C):
+        k, n = 2, 3
+        if C.symbolic:
+            e = sx.cur()
+            w = e.reals("w", k)
+            D = e.reals("d", n, k)
+        else:
+            w = numpy.array([float(C.inputs.get(f"w_{j}", 1 + j)) for j in range(k)], dtype=object)
+            D = numpy.array([[float(C.inputs.get(f"d_{i}_{j}", 1 + i + 2 * j)) for j in range(k)] for i in range(n)], dtype=object)
+        for v in list(w) + list(D.ravel()):
+            C.assume(v > 0)
+        est = kc.ConstraintKMeans(n_clusters=k, strategy="weights", random_state=0)
+        # fitted state, as fit leaves it
+        est.cluster_centers_ = numpy.array([[0.0], [1.0]])
+        est.labels_ = numpy.array([0, 1, 1])
+        est.inertia_, est.n_iter_, est.cluster_centers_iter_ = 1.0, 2, None
+        est.weights_ = w
+        Xq = numpy.zeros((n, 1))
+
+        class KM(kc.KMeans):  # KMeans.transform / euclidean_distances of the real class: the distances of these rows
+            def transform(self, X):
+                return D.copy()[: len(X)]
+
+        with harness.patched(kc, KMeans=KM, euclidean_distances=lambda a, b, squared=False: D.copy()):
+            want_t, want_s = est.transform(Xq), est.score(Xq)
+            for i in range(n):
+                for j in range(k):
+                    C.eq(want_t[i, j], D[i, j] * w[j], "ConstraintKMeans(weights)/transform=distance*cluster-weight")
+            kcopy = sk.clone_with_fitted_parameters(est)
+            C.true(kcopy is not est, "clone_with_fitted_parameters/distinct-object")
+            got_t, got_s = kcopy.transform(Xq), kcopy.score(Xq)
+            _cell_eq(C, got_t, want_t, "clone_with_fitted_parameters/identical-outputs(ConstraintKMeans.transform,weights)")
+            _cell_eq(C, got_s, want_s, "clone_with_fitted_parameters/identical-outputs(ConstraintKMeans.score,weights)")
+
+    return scenario
+
+
 def sc_ptr(cfg):
     from . import c09
 
@@ -286,7 +329,7 @@ def sc_pickle(cfg):
     return scenario
 
 
-SCEN = dict(transfer=sc_transfer, piecewise=sc_piecewise, dtlr=sc_dtlr, kml1=sc_kml1, cak=sc_cak, interval=sc_interval, learner=sc_learner, ptr=sc_ptr, pickle=sc_pickle)
+SCEN = dict(ckm_weights=sc_ckm_weights, transfer=sc_transfer, piecewise=sc_piecewise, dtlr=sc_dtlr, kml1=sc_kml1, cak=sc_cak, interval=sc_interval, learner=sc_learner, ptr=sc_ptr, pickle=sc_pickle)
 
 
 def run_config(cfg):
@@ -303,6 +346,7 @@ def configs(tier):
         out.append(dict(kind="learner", method=m))
     for m in (0, 2):
         out.append(dict(kind="transfer", method=m))
+    out.append(dict(kind="ckm_weights"))
     return out
 
 
@@ -315,6 +359,7 @@ def run(ctx, rep):
     rep.add_functions("mlmodel.interval_regressor", ["IntervalRegressor.predict_all", "IntervalRegressor.predict", "IntervalRegressor.predict_sorted"])
     rep.add_functions("sklapi.sklearn_base_transform_learner", ["SkBaseTransformLearner.transform"])
     rep.add_functions("mlmodel.sklearn_testing", ["clone_with_fitted_parameters"])
+    rep.add_functions("mlmodel.kmeans_constraint", ["ConstraintKMeans.__init__", "ConstraintKMeans.transform", "ConstraintKMeans.score"])
     rep.add_functions("mlmodel.transfer_transformer", ["TransferTransformer.fit", "TransferTransformer.transform"])
     rep.add_functions("mlmodel.piecewise_tree_regression", ["PiecewiseTreeRegressor.predict_leaves", "PiecewiseTreeRegressor._predict_reglin"])
     cfgs = configs(ctx.tier)
